@@ -2,13 +2,17 @@ import RallyModel.Dbl
 /-!
 Model of `esrally/reporter.py :: ComparisonReporter` (C20): `_line`, `_diff`, the formatters of
 `esrally/utils/convert.py` that the comparison uses, and `_metrics_table` as an interpreter of a
-*generated* block table (`RallyGen/CompareRows.lean`, written by `harness/c20.py::translate`).
+*generated* block table (`RallyGen/CompareRows.lean`, written by `harness/c20.py::translate` from a
+behavioural probe of the real `_metrics_table`: per `_line` call site the source metric, label, unit
+source, `treat_increase_as_improvement`, formatter, processing-time flag and the sign convention of the
+relative difference; per block its kind and the `… is None: return` guards).
 
 Numbers.  A Python value in a race result is an `int` (arbitrary precision) or a `float`.
 Floats are kept in **sign–magnitude** form (`SM`): IEEE-754 round-to-nearest-even is symmetric in the
 sign, so every basic operation is "operate on the magnitudes exactly, round with `Dbl.fl`, compute the
 sign bit by the IEEE rule".  This keeps `-0.0` (which the real code prints as `-0.00%`) exact.
-Only the normal range is modelled; the driver answers out-of-range otherwise.
+Only the normal range is modelled: the driver accepts magnitudes 0 or in [2^-300, 2^300] (no
+intermediate result can then leave the normal range) and answers `OutOfDomain` otherwise.
 Import-free apart from `RallyModel.Dbl`.
 -/
 namespace Compare
